@@ -19,7 +19,7 @@ A document is a `List Char`. Two definitions of what a (line, UTF-16 column) pos
                     UTF-16 code units of the line's content (terminator excluded); a column inside a
                     surrogate pair or beyond the content denotes nothing.
 * `charIndex`     — the same with only `\n` (and `\r` directly before it as part of the terminator).
-They coincide when the document has no lone `\r` (`lsp_charIndex_eq` in Lemmas/C21.lean); the
+They coincide when the document has no lone `\r` (`lsp_charIndex_eq`, Props/C21.lean); the
 property theorems are stated with `lspCharIndex` under the guard `NoLoneCR`.
 Both accept the position `(number of lines, 0)` as EOF (the LSP rule "a line number greater than the
 number of lines defaults back to the number of lines"; clients that address EOF of a file without
@@ -302,9 +302,8 @@ def NotifShape : Notif → Bool
   | .open _ => true
   | .change cs => cs.all isIncr || cs.length == 1
 
-/-- the history is one a client could send: every document state has no lone `\r`, every
-notification has a supported shape and every range is valid in the state it applies to.
-Returns the final client document. -/
+/-- the client's document after a history; `none` if some range denotes nothing in the state it
+applies to (such a history is not one a client sends) -/
 def clientRun (idx : List Char → Pos → Option Nat) (doc : List Char) : List Notif → Option (List Char)
   | [] => some doc
   | n :: rest =>
@@ -321,6 +320,8 @@ def listNoLoneCR (idx : List Char → Pos → Option Nat) (doc : List Char) : Li
     | some d => listNoLoneCR idx d rest
     | none => false
 
+/-- guard of `sync_history`: every notification has a supported shape and every document state in
+which a range is resolved has no lone `\r` -/
 def historyGuard (idx : List Char → Pos → Option Nat) (doc : List Char) : List Notif → Bool
   | [] => true
   | n :: rest =>
